@@ -27,6 +27,8 @@ type Engine struct {
 
 	Obls        []*Obligation
 	Assumptions map[string]bool
+	Strip       bool // ContractOf returns contracts without functional clauses (C13 fallback when they no longer match)
+	stripped    map[*FuncContract]*FuncContract
 	Externals   map[string]bool // callees without contract, treated as unconstrained
 	PanicAssumed int
 	FuncsVerified []string
@@ -176,7 +178,27 @@ func (e *Engine) ContractOf(fn *ssa.Function) *FuncContract {
 	if ps == nil {
 		return nil
 	}
-	return ps.Funcs[FuncKey(fn)]
+	ct := ps.Funcs[FuncKey(fn)]
+	if e.Strip && ct != nil {
+		return e.Stripped(ct)
+	}
+	return ct
+}
+
+// Stripped returns the contract without its functional clauses (assertions, postconditions, ghost statements,
+// loop invariants): what remains - options, helper/closure structure, preconditions - is what the
+// lock-discipline obligations are generated from.
+func (e *Engine) Stripped(ct *FuncContract) *FuncContract {
+	if e.stripped == nil {
+		e.stripped = map[*FuncContract]*FuncContract{}
+	}
+	if s, ok := e.stripped[ct]; ok {
+		return s
+	}
+	c2 := *ct
+	c2.Asserts, c2.Ensures, c2.Ghost, c2.Loops, c2.AssumesAt = nil, nil, nil, nil, nil
+	e.stripped[ct] = &c2
+	return &c2
 }
 
 // LookupFunc finds an SSA function by contract key in a package.
